@@ -19,7 +19,9 @@ LEVEL_TEXT = ("Theorems in Coq (Props/C01.v): the signing loop returns exactly t
               "standard's ZA with 32-byte coordinates and IDs of 8192 bytes or more are refused; every signature of a key in [1,n-2] verifies "
               "(under SM2Facts: p, n prime, associativity, ord G = n); distinct attempts and distinct calls read disjoint stream positions; "
               "a different public key: P accepts (e,r,s) iff [t]P = R - [s]G for a curve point R with x(R) = r-e mod n, so an accepting key [d]G is one of the "
-              "at most four listed keys [t^-1](R - [s]G); each theorem also exists with its minimal premises (SM2/SM2GroupMin.v); d = n-1 panics (outside the domain).")
+              "at most four listed keys [t^-1](R - [s]G); each theorem also exists with its minimal premises (SM2/SM2GroupMin.v); d = n-1 panics (outside the domain); "
+              "associativity of the affine law is PROVED (SM2/ECAssocAbstract.v, ECAssoc.v: 221-leaf case analysis closed by nsatz; theorem C01_add_assoc_proved, premise 'p prime'), "
+              "so the _noassoc variants need only: p prime, n prime, [n]G = O, [k]G finite for 0<k<n.")
 LEVEL_NOTE = ("Relative to C03: the curve methods ScalarBaseMult / ScalarMult / Add / IsOnCurve are taken to be the affine group operations "
               "of EC/SM2Curve.v with infinity written (0,0) (C03 proves that for the Go curve object). Completeness is relative to the premise "
               "SM2Facts (primality of p and n, associativity of the chord-and-tangent law, order of G), visible in the statement. "
